@@ -312,14 +312,14 @@ theorem back_layer_right {o : BinOp} {b' b2 b0 : IExpr} {τb τb0 : ETy} {la : L
 
 /-- **Arithmetic operators are stable under re-elaboration**: if both exported operands elaborate to one of the `Back`
     cases, the operator node is rebuilt with the same operands and the same type. -/
-theorem elabArith_stable {o : BinOp} {a' b' n a0 b0 : IExpr} {τa τb τ τa0 τb0 : ETy}
+theorem elabArith_stable {o : BinOp} {a' b' n : IExpr} {τa τb τ : ETy}
     (h : elabArith o a' τa b' τb = .ok (n, τ)) :
     ∃ D ca cb a2 b2 i, find τa D = .ok (some ca) ∧ find τb D = .ok (some cb) ∧ D.vt = .rvalue ∧
       applyConv ca a' = .ok a2 ∧ applyConv cb b' = .ok b2 ∧ o.toIOp = some i ∧ n = .op i (.cons a2 (.cons b2 .nil)) ∧
-      (Back τa D a' a2 a0 τa0 → Back τb D b' b2 b0 τb0 → elabArith o a0 τa0 b0 τb0 = .ok (n, τ)) := by
+      (∀ a0 τa0 b0 τb0, Back τa D a' a2 a0 τa0 → Back τb D b' b2 b0 τb0 → elabArith o a0 τa0 b0 τb0 = .ok (n, τ)) := by
   obtain ⟨ts, dim, ca, cb, a2, b2, i, hna, hnb, hts, hdim, hca, hcb, h3, h4, h5, h6, h7⟩ := elabArith_inv h
   refine ⟨DTy ts dim, ca, cb, a2, b2, i, hca, hcb, rfl, h3, h4, h5, h7, ?_⟩
-  intro hba hbb
+  intro a0 τa0 b0 τb0 hba hbb
   obtain ⟨hna0, hnb0, hts0, hdim0⟩ := arith_stable hna hnb hts hdim (back_layer_left hba hts) (back_layer_right hbb hts)
   obtain ⟨ca0, hca0, h30⟩ := back_find hca h3 hba
   obtain ⟨cb0, hcb0, h40⟩ := back_find hcb h4 hbb
